@@ -4,6 +4,15 @@
 set -u
 OUT=$1; P=$2; TIER=${3:-quick}
 W=/tmp/mut/verify
+# SKIP_CONFIRM=1: the change was confirmed before (meta.json "confirmed"); only run the check against it
+if [ "${SKIP_CONFIRM:-0}" = 1 ]; then
+  git -C /repo apply $OUT/patch.diff || { echo "RESULT $OUT apply-to-repo-failed"; exit 0; }
+  (cd /verif && timeout 3000 ./check $P $TIER > /tmp/mut/v_check.log 2>&1); RC=$?
+  git -C /repo checkout -- .
+  tail -2 /tmp/mut/v_check.log | cut -c1-300
+  if [ $RC -eq 1 ]; then echo "RESULT $OUT DETECTED by $P $TIER"; elif [ $RC -eq 0 ]; then echo "RESULT $OUT MISSED by $P $TIER"; else echo "RESULT $OUT BROKEN rc=$RC"; fi
+  exit 0
+fi
 export GOFLAGS=-mod=mod GOPROXY=off
 if [ ! -d $W ]; then git -C /repo worktree add -q --detach $W HEAD; fi
 git -C $W checkout -q --detach $(git -C /repo rev-parse HEAD) 2>/dev/null; git -C $W checkout -q -- . ; git -C $W clean -fdq
